@@ -254,6 +254,11 @@ def rule_G3b(prog, fixture=False):
                         v = _alias_verdict_via_callers(prog, f, c, p)
                     if v:
                         verdicts.append((v, c.text()))
+            if not verdicts and _short(f.qn) != "operator=":
+                # a private helper for the "other array" case: every call of it is reached only when the bases differ
+                cv = _alias_fact_at_every_call(prog, f)
+                if cv:
+                    verdicts.append((cv[0], "at the call in %s: %s" % (cv[1], cv[2])))
             if any(v == "different" for (v, _) in verdicts):
                 res.add(key, DISCHARGED, where, what, "reached only when the bases differ (%s)" % [t for (v, t) in verdicts if v == "different"][0],
                         func=f.name, extra=extra)
@@ -656,6 +661,38 @@ def _same_member(c, pol, names):
         return None, None
     (a, athis), (b, bthis) = nm(l), nm(r)
     return a in names and b in names and athis != bthis
+
+
+def _alias_fact_at_every_call(prog, f):
+    """('different' | 'same', caller, condition) when every call site of the helper f lies behind a branch outcome with that
+    verdict about the caller's own slice and its source parameter; else None"""
+    callers = [(c, call) for (c, call) in prog.callers_of(f.usr) if not c.file.endswith("coverage.cc")]
+    if not callers:
+        return None
+    out = set()
+    why = None
+    for (caller, call) in callers:
+        cn = caller.nodes.get(call["node"])
+        if cn is None or caller.cls != f.cls:
+            return None
+        cctx = GuardCtx(prog, caller, group_params=False)
+        csrc = [("parm", p["n"]) for p in caller.params if "slice_t<" in p.get("t", "")]
+        caller.blocks
+        v = None
+        for fact in caller.facts_at(cn):
+            if fact.belief:
+                continue
+            for (c, p) in atoms_of(fact.cond, fact.pol):
+                for so in csrc:
+                    r = _alias_verdict(cctx, c, p, so)
+                    if r:
+                        v, why = r, (caller.short, c.text()[:50])
+        if v is None:
+            return None
+        out.add(v)
+    if len(out) == 1:
+        return (out.pop(), why[0], why[1])
+    return None
 
 
 def _alias_verdict_via_callers(prog, f, cond, pol):
